@@ -224,7 +224,9 @@ func c15Oracle(h c15History, o c15Out) *c15Violation {
 	allocCount := map[string]int{}
 	for i, op := range h.Ops {
 		r := o.Res[i]
-		at := func(s string) string { return fmt.Sprintf("%s (op %d: %s %q %q on scope %d)", s, i, op.T, op.A, op.B, op.Scope) }
+		at := func(s string) string {
+			return fmt.Sprintf("%s (op %d: %s %q %q on scope %d)", s, i, op.T, op.A, op.B, op.Scope)
+		}
 		switch op.T {
 		case "alloc":
 			allocCount[op.A]++
@@ -526,7 +528,7 @@ func evalC15(c *core.Ctx, cs c15Case, id string) Outcome {
 func RunC15(c *core.Ctx) int {
 	c15Prepare(c)
 	libBatches, batchSize, probes := 60, 500, 150
-	budget := 170 * time.Second
+	budget := 20 * time.Minute // quick: the case count is the contract, the clock only a watchdog
 	if c.Tier == "thorough" {
 		libBatches, batchSize, probes = 400, 1000, 1500
 		budget = 28 * time.Minute
